@@ -631,6 +631,8 @@ def norm_path(path):
 
 
 class Flow:
+    alloc_wrappers = {}
+
     def __init__(self, fb):
         self.fb = fb
         self.table = {}
@@ -858,7 +860,13 @@ class Flow:
             target = path
         if target is not None:
             cb = self.fb.bodies[target]
-            return self._q(cb, 0, rest, mode)
+            out = self._q(cb, 0, rest, mode)
+            if target in self.alloc_wrappers:
+                # a private constructor that only wraps one allocation (e.g. `FnIdChannel::new(cap)` around `mpsc::channel(cap)`):
+                # each of its call sites is an allocation site of its own
+                inner = self.alloc_wrappers[target]
+                out = {Src(("alloc", body.id, bb, x[3], x[4])) if (x.kind == "alloc" and (x[1], x[2]) == inner) else x for x in out}
+            return out
         if path == "std::ops::FromResidual::from_residual":
             # produces only failure values: Err(From::from(e))
             if rest and rest[0] == "E":
